@@ -325,11 +325,14 @@ def run_case(c):
         table = config_handler.get_world_configs()
         before = _canon(table)
         entry = table[name]
-        try:
-            w = build_world(name)
-            w2 = build_world(name)
-        except Exception as e:
-            return dict(status='pass', viol=[(f'C16/build/shipped/exception/{type(e).__name__}', dict(name=name, msg=str(e)[:200]))], obs=('exc', name))
+        outs = [run_budgeted(lambda: build_world(name)) for _ in range(2)]
+        for st, res, _n in outs:
+            if st == 'budget':
+                return dict(status='pass', viol=[('C16/build/shipped/non-termination', dict(name=name, where=res))], obs=('budget', name))
+            if st == 'exc':
+                return dict(status='pass', viol=[(f'C16/build/shipped/exception/{type(res).__name__}', dict(name=name, msg=str(res)[:200]))],
+                            obs=('exc', name))
+        w, w2 = outs[0][1], outs[1][1]
         derived = 'mass' not in entry
         for what, det in build_invariants(w, derived, meas):
             viol.append((f'C16/build/shipped/{what}', dict(name=name, **det)))
@@ -344,10 +347,12 @@ def run_case(c):
     # generated
     cfg, ref = gen_config(c)
     cfg_before = _canon(cfg)
-    try:
-        w = build_world('Gen', cfg)
-    except Exception as e:
-        return dict(status='pass', viol=[(f'C16/build/generated/exception/{type(e).__name__}', dict(msg=str(e)[:200]))], obs=('exc',))
+    st, res, _n = run_budgeted(lambda: build_world('Gen', cfg))
+    if st == 'budget':
+        return dict(status='pass', viol=[('C16/build/generated/non-termination', dict(where=res))], obs=('budget',))
+    if st == 'exc':
+        return dict(status='pass', viol=[(f'C16/build/generated/exception/{type(res).__name__}', dict(msg=str(res)[:200]))], obs=('exc',))
+    w = res
     for what, det in build_invariants(w, ref['derived'], meas):
         viol.append((f'C16/build/generated/{what}', det))
     if _canon(cfg) != cfg_before:
@@ -702,22 +707,23 @@ def run(ctx):
     _merge_meas(worst, res)
     ev1, dn1 = ctx.coverage['evaluations'], ctx.coverage['distinct_nontrivial']
     # ---- part 2: chains
-    depth = 4 if ctx.thorough else 3
+    depth_full, depth = 3, (5 if ctx.thorough else 3)
     tot = dict(states=0, transitions=0, executions=0)
     per_root, samples = {}, []
     for root in ROOTS:
-        r = histories.bfs(ctx, 'mc.props.C16:explore', root, list(OPS), depth_full=depth, depth_canon=depth, chunk=16)
+        r = histories.bfs(ctx, 'mc.props.C16:explore', root, list(OPS), depth_full=depth_full, depth_canon=depth, chunk=16)
         per_root[root] = {k: v for k, v in r.items() if k != 'samples'}
         for k in tot:
             tot[k] += r[k]
         samples.extend(dict(config=root, history=h) for h in r['samples'][:1])
         ctx.note(f'chains from {root}: alphabet={len(OPS)} {per_root[root]}')
     ctx.coverage.update(states=tot['states'], transitions=tot['transitions'], traces_validated_against_impl=tot['executions'],
-                        per_root=per_root, chain_depth=depth, chain_alphabet=list(OPS), step_budget_lines=STEP_BUDGET,
+                        per_root=per_root, depth_full=depth_full, depth_canonical=depth, chain_alphabet=list(OPS), step_budget_lines=STEP_BUDGET,
                         lattice_evaluations=ev1, lattice_distinct=dn1, measured_worst={k: float(v) for k, v in sorted(worst.items())},
-                        exhaustive=True)
+                        exhaustive=not any(v['frontier_capped'] for v in per_root.values()))
     ctx.coverage['samples'] = list(ctx.coverage.get('samples', []))[:5] + samples
-    ctx.coverage['rule'] += (f' | chains: all histories over the {len(OPS)}-operation alphabet to depth {depth} from roots {list(ROOTS)}, '
+    ctx.coverage['rule'] += (f' | chains: all histories over the {len(OPS)}-operation alphabet to depth {depth_full}, then canonical-state BFS to depth {depth} '
+                             f'(one representative history per distinct state) from roots {list(ROOTS)}, '
                              'each operation executed on the real builder under the step budget; a history whose last operation does '
                              'not return (budget / exception) is reported and not extended; states = distinct (name, configuration, geometry) snapshots of the current world')
     ctx.note('measured worst deviations (builds): ' + ', '.join(f'{k}={v:.2e}' for k, v in sorted(worst.items())))
